@@ -129,6 +129,9 @@ Section Id.
     rewrite (Edo (strop_by_keyword cfg) false (fun k => Ekw k false)).
     rewrite (Epat false). rewrite (Epat true). cbn [checked].
     rewrite (Edo (strop_by_keyword cfg) true (fun k => Ekw k true)). cbn [checked].
-    rewrite (Edo (encode u sp cfg) true (fun k => Eenc k true)). reflexivity.
+    rewrite (Edo (encode u sp cfg) true (fun k => Eenc k true)). cbn [checked].
+    unfold reverified. rewrite (Epat true), (Edo (strop_by_keyword cfg) true (fun k => Ekw k true)),
+      (Edo (encode u sp cfg) true (fun k => Eenc k true)).
+    destruct (sc_reverify cfg); reflexivity.
   Qed.
 End Id.
